@@ -513,6 +513,16 @@ static int run_batch(Property *p, bool thorough, uint64_t seed, int jobs, double
     auto it = firsts.find(key);
     if (it == firsts.end() || f.index < it->second.index) firsts[key] = f;
   }
+  {
+    std::map<std::string, std::pair<uint64_t, uint64_t>> tally;   // rule|sig -> (count, first index)
+    for (auto &f : found) {
+      std::string key = f.v.rule + " sig=" + f.v.sig.substr(0, 100);
+      auto it = tally.find(key);
+      if (it == tally.end()) tally[key] = {1, f.index};
+      else { it->second.first++; if (f.index < it->second.second) it->second.second = f.index; }
+    }
+    for (auto &kv : tally) printf("  tally: %-70s runs=%llu first_index=%llu\n", kv.first.c_str(), (unsigned long long)kv.second.first, (unsigned long long)kv.second.second);
+  }
   json viol_report = json::array();
   int reported = 0;
   for (auto &kv : firsts) {
@@ -670,7 +680,7 @@ int runner_main(int argc, char **argv) {
   if (const char *s = getenv("VERIF_SEED")) seed = strtoull(s, nullptr, 10);
   int jobs = 16;
   if (const char *s = getenv("VERIF_JOBS")) jobs = atoi(s);
-  bool thorough = false, verbose = false, evidence = true;
+  bool thorough = false, verbose = false, evidence = true, plan_only = false;
   double budget = -1;
   uint64_t runs = 0;
   std::string mode, replay;
@@ -688,6 +698,7 @@ int runner_main(int argc, char **argv) {
     else if (a == "--runs" && i + 1 < argc) runs = strtoull(argv[++i], nullptr, 10);
     else if (a == "--seed" && i + 1 < argc) seed = strtoull(argv[++i], nullptr, 10);
     else if (a == "--no-evidence") evidence = false;
+    else if (a == "--plan-only") plan_only = true;
     else if (a == "-v") verbose = true;
   }
   if (const char *s = getenv("VERIF_TIER")) { if (mode == "batch" && std::string(s) == "thorough") thorough = true; }
@@ -697,6 +708,7 @@ int runner_main(int argc, char **argv) {
   if (mode == "replay") return do_replay(p, replay, true);
   if (mode == "index") {
     json plan = p->generate(seed, index, thorough);
+    if (plan_only) { printf("%s\n", plan.dump(1).c_str()); return 0; }
     if (verbose) printf("%s\n", plan.dump(1).c_str());
     RunResult r;
     p->execute(plan, r, true);
